@@ -229,6 +229,14 @@ pub fn supervise(a: SupArgs) -> Outcome {
     };
     println!("graphsim: property={} tier={} VERIF_SEED={} engine={}", prop.id(), a.tier.name(), a.seed, crate::pool::ENGINE);
     let total = a.runs.unwrap_or_else(|| prop.runs(a.tier));
+    // stale replay files of this property would be mistaken for this run's
+    if let Ok(rd) = std::fs::read_dir(format!("{}/replays", a.verif_dir)) {
+        for e in rd.flatten() {
+            if e.file_name().to_string_lossy().starts_with(&format!("{}-", prop.id())) {
+                let _ = std::fs::remove_file(e.path());
+            }
+        }
+    }
     let mut m = match collect(&a, total) {
         Ok(m) => m,
         Err(e) => {
